@@ -143,6 +143,19 @@ def run(ctx):
                                 if by == 'check':
                                     call['tree'] = dict(rules)['p:x']
                                 cases.append(ec.enforce_case(rules, call, {}, {'roles': [], 'f': flags}, dflt=('opt', None), checklog=1, want='c07'))
+        # a check that cannot be evaluated on these credentials (a dotted path running into a string, a number,
+        # null or a list of scalars; no role list at all) is a denial like any other: False, or the raise
+        for leaf in (ev.generic('user.id', ev.ph('owner_id')), ev.generic('user.id.x', 'u1'), ev.role('r1')):
+            for creds in ({'user': 'u1'}, {'user': None}, {'user': ['u1', 'u2']}, {'user': 7}, {'user': {'id': 5}}, {'user_id': 'u1'}):
+                for shape in ('self', 'alias', 'or'):
+                    rules = {'self': [('p:x', leaf)], 'alias': [('p:x', ev.rule('p:y')), ('p:y', leaf)], 'or': [('p:x', ev.Or(ev.F, leaf))]}[shape]
+                    for mode in ({'doraise': 0}, {'doraise': 1}, {'doraise': 1, 'custom': 1, 'xargs': [1], 'xkw': {'k': 'v'}}):
+                        for by in ('name', 'check', 'authorize'):
+                            call = dict({'by': 'check' if by == 'check' else 'name', 'name': 'p:x', 'credskind': 'map', 'authorize': 1 if by == 'authorize' else 0}, **mode)
+                            if by == 'check':
+                                call['tree'] = dict(rules)['p:x']
+                            cases.append(ec.enforce_case(rules, call, {'owner_id': 'u1'}, creds, dflt=('opt', None),
+                                                         registered=[('p:x', [])] if by == 'authorize' else (), checklog=1, want='c07'))
         # one RequestContext object used for several calls, its attributes re-assigned in between: every
         # call is decided on what the context holds at the time of the call
         from oslo_context import context as _context
